@@ -330,6 +330,8 @@ def krstrip(r0: int, r1: int, c0: int, c1: int, e_rows: int, e_cols: int, styled
     eh = r0 + r1
     ok = t.get_value((qx, qy)) == ref(r0, r1, c0, c1, qx, qy) and t.height == eh and t.width == ew
     ok = ok and x_total(t._n, "row") == eh and x_value(t._n, qx, qy) == ref(r0, r1, c0, c1, qx, qy)
+    f = wrap(t._n)  # C02: the live position maps are those of the XML read afresh
+    ok = ok and t._tmap == f._tmap and t._cmap == f._cmap
     snap = snapshot(t._n)
     t.rstrip(aggressive=aggressive)
     return done(ok and snapshot(t._n) == snap and t.height == eh and t.width == ew)
@@ -408,6 +410,8 @@ def koptimize(r0: int, r1: int, c0: int, c1: int, e_rows: int, e_cols: int, qx: 
     eh = r0 + r1 + (1 if e_rows > 0 else 0)
     ok = t.get_value((qx, qy)) == ref(r0, r1, c0, c1, qx, qy) and x_value(t._n, qx, qy) == ref(r0, r1, c0, c1, qx, qy)
     ok = ok and t.height == eh and t.width == ew and x_total(t._n, "row") == eh
+    f = wrap(t._n)  # C02: the live position maps are those of the XML read afresh
+    ok = ok and t._tmap == f._tmap and t._cmap == f._cmap
     snap = snapshot(t._n)
     t.optimize_width()
     return done(ok and snapshot(t._n) == snap)
@@ -474,3 +478,22 @@ def ktrans_ragged(w0: int, w1: int, rep: int, qx: int, qy: int) -> bool:
     ok = t.get_value((qy, qx)) == orig(qx, qy)
     t.transpose()
     return done(ok and t.get_value((qx, qy)) == orig(qx, qy) and x_value(t._n, qx, qy) == orig(qx, qy))
+
+
+def kget_empty_table(x: int, y: int) -> bool:
+    """
+    pre: -3 <= x <= 3 and -3 <= y <= 3
+    post: _
+    """
+    # reading anywhere (negative positions included) in a table without rows, or in a row without cells,
+    # returns an empty cell / row instead of failing, and does not grow the table
+    from ktable import KTable
+    t = KTable()
+    c = t.get_cell((x, y))
+    ok = c.get_value() is None and t.get_value((x, y)) is None
+    r = t.get_row(y)
+    ok = ok and r.width == 0 and t.width == 0 and t.height == 0 and len(t._n.kids) == 0
+    row = KRow()
+    rc = row.get_cell(x)
+    ok = ok and rc.get_value() is None and row.get_value(x) is None and row.width == 0 and len(row._n.kids) == 0
+    return done(ok)
